@@ -122,5 +122,17 @@ ConvMagnitude(tdl, t) ==
   Add(AtanRatio(Abs(t.qq), Abs(t.pp)),
       AtanRatio(Mul(Abs(t.taup), RatS(IF tdl[1] < 0 THEN -tdl[1] ELSE tdl[1], tdl[2])), Sqrt(Add(One, Sq(t.taup)))))
 
+\* ---- the same at ANY position: sines and cosines of the latitude and of the longitude difference given as numbers
+\* (from Trig!SinCosDeg in the trace specification) instead of Pythagorean ratios; latitude strictly between the poles ----
+TM2g(al, sigma, sphi, cphi, sdl, cdl) ==
+  TM3(al, Sub(Mul(Mul(sphi, Recip(cphi)), Sqrt(Add(One, Sq(sigma)))), Mul(sigma, Recip(cphi))), cdl, sdl)
+TMRatiosSC(n, sphi, cphi, sdl, cdl) ==
+  TM2g(Alpha(n), SinhSmall(Mul(Sqrt(Ecc2OfN(n)), Atanh(Mul(Sqrt(Ecc2OfN(n)), sphi), 14))), sphi, cphi, sdl, cdl)
+ScaleOverK0SC(a, n, sphi, cphi, t) ==
+  Mul(Mul(Mul(Mul(Mul(RectRadius(a, n), Recip(a)), Sqrt(Add(Sq(t.pp), Sq(t.qq)))), Recip(cphi)),
+          Sqrt(Sub(One, Mul(Ecc2OfN(n), Sq(sphi))))), Recip(t.hyp))
+ConvMagnitudeSC(sdl, cdl, t) ==
+  Add(AtanRatio(Abs(t.qq), Abs(t.pp)), AtanRatio(Mul(Abs(t.taup), Abs(sdl)), Mul(cdl, Sqrt(Add(One, Sq(t.taup))))))
+
 ResidualsOK(r) == \A i \in 1..Len(r) : Leq(r[i], Dec(10, 4))      \* 1e-15
 =============================================================================
